@@ -83,6 +83,23 @@ def _chunk_body(ea, eb, mants, Prefix, Prefixed, hexp):
                         outcomes.add(op + ":ok")
                     except Exception as e:
                         bad(op, sa, None, "raised", short_exc(e))
+            # comparisons with a bare float: as everywhere in the library, a float denotes the decimal number it prints as
+            if ma == mants[0]:
+                import operator
+
+                for f in (0.1, 0.3, 0.0003, 1.1, 2.675, 123.456, 7e-9, 0.5, -0.1, 3.0):
+                    X = Prefixed(number=Decimal(repr(f)).scaleb(-ea), prefix=pa)  # the same value, written with prefix pa
+                    for g, rel in ((f, 0), (f * 2, -1 if f > 0 else 1), (f / 2, 1 if f > 0 else -1)):
+                        for opn, want in (("eq", rel == 0), ("ne", rel != 0), ("lt", rel < 0), ("le", rel <= 0), ("gt", rel > 0), ("ge", rel >= 0)):
+                            for side in ("x?f", "f?x"):
+                                n += 1
+                                try:
+                                    r = getattr(operator, opn)(X, g) if side == "x?f" else getattr(operator, {"lt": "gt", "gt": "lt", "le": "ge", "ge": "le"}.get(opn, opn))(g, X)
+                                    if r is not want:
+                                        bad("float_" + opn, (repr(f), ea), repr(g), "comparison with a bare float (" + side + ")", r, want)
+                                    outcomes.add("float_cmp:ok")
+                                except Exception as e:
+                                    bad("float_" + opn, (repr(f), ea), repr(g), "raised", short_exc(e))
             # the documented exponent spelling `number * e(k)`, digit for digit
             n += 1
             try:
